@@ -126,7 +126,7 @@ impl World {
                         }
                     }
                     Ok(Some(d)) => {
-                        r.mlast = Some(MLast { planes: d.planes.clone(), tr: pic.hdr.tr() as u16, ptype: ptype_name(pic), q: pic.hdr.q() });
+                        r.mlast = Some(MLast { planes: d.planes.clone(), tr: pic.hdr.tr_full(), ptype: ptype_name(pic), q: pic.hdr.q() });
                     }
                 }
             }
@@ -303,6 +303,30 @@ pub fn closed_world(sorenson: bool, trs: &[u8], contents: usize) -> World {
     World { opts: if sorenson { 1 } else { 0 }, ops }
 }
 
+/// Standard mode with a custom picture clock: temporal references are ten bits wide (TR + ETR).
+/// The alphabet has values that agree in their low eight bits and values that differ only there.
+pub fn closed_world_etr() -> World {
+    let hdr = |inter: bool, tr: u16| -> Hdr {
+        let mut h = StdHdr::custom(32, 16, inter, (tr & 255) as u8, 5);
+        let p = h.plus.as_mut().unwrap();
+        p.opp.custom_pcf = true;
+        p.cpcfc = 0x8B;
+        p.etr = (tr >> 8) as u8;
+        Hdr::Std(h)
+    };
+    let mut ops = vec![];
+    for &tr in &[5u16, 261, 773, 6, 1023] {
+        for c in 0..2usize {
+            ops.push(GOp::pic(&format!("I(tr={tr},{c})"), Pic { hdr: hdr(false, tr), mbs: vec![flat_mb(c), flat_mb(c)] }));
+            ops.push(GOp::pic(&format!("Pa(tr={tr},{c})"), Pic { hdr: hdr(true, tr), mbs: vec![flat_mb(c), Mb::NotCoded] }));
+            ops.push(GOp::pic(&format!("Pb(tr={tr},{c})"), Pic { hdr: hdr(true, tr), mbs: vec![Mb::NotCoded, flat_mb(c)] }));
+        }
+    }
+    ops.extend(bad_inputs(false));
+    ops.push(GOp::Cleanup);
+    World { opts: 0, ops }
+}
+
 /// Size-change world: intra pictures of several shapes (including transposes with identical plane
 /// sizes), predicted pictures of each shape (valid only over a reference of the same shape).
 pub fn size_world() -> World {
@@ -428,6 +452,7 @@ pub fn run(tier: Tier) -> Report {
     };
     do_world("sorenson-closed", &closed_world(true, &TRS, 3), None, false);
     do_world("standard-closed", &closed_world(false, &TRS, 3), None, false);
+    do_world("standard-10-bit-temporal-references", &closed_world_etr(), None, false);
     do_world("sorenson-size-changes", &size_world(), if tier.thorough() { None } else { Some(4) }, false);
     if tier.thorough() {
         do_world("sorenson-closed-5tr", &closed_world(true, &[0, 1, 2, 254, 255], 3), None, false);
